@@ -20,6 +20,7 @@ var (
 
 func Setup() {
 	setupNodes()
+	setupVarMenu()
 	root = hx.EmptyDoc()
 	exprs = map[string]*xsel.Grammar{}
 	for _, s := range []string{"string($x)", "number($x)", "boolean($x)", "not($x)", "not(not($x))",
